@@ -1,18 +1,25 @@
 """Recipe of component `wsconc`: C14 (WebSocket callbacks ordered and exactly-once; concurrent writes stay whole).
 Coq: coq/wsconc (SendQueue.v: the write side of websocket.Conn with the explicit connection mutex, both write modes;
-Callbacks.v: the callback order as an instance of the serializer of coq/sched).  Harness: harness/cmd/wsconc
-(implementation-only oracle on real servers; no extracted model)."""
+Callbacks.v: the callback order as an instance of the serializer of coq/sched).  Harness: harness/cmd/wsconc:
+(1) the real websocket.Conn over a socket whose writes the harness holds, in lock step with the extracted SendQueue model;
+(2) implementation-only oracle on real servers in every upgrade path."""
 import vlib  # noqa: F401
-from props import n
+from props import EXTRACT_TB, NATINT_TB, n
+
+MODEL = ("wsconc", "Extract.v", ["sqmodel"], "main.ml")
 
 
 def c14(c):
     c.coq(["sched", "wsconc"], "C14", "WsConcC")
     c.trusted += [
-        "the write-side model (coq/wsconc/SendQueue.v) is tied to nbhttp/websocket/conn.go by inspection and by the end-to-end oracle only - there is no "
-        "step-by-step correspondence run: one action per writeFrame of the call holding c.mux, the drainer's Conn.Write outside the mutex, its critical "
-        "section and CloseAndClean's under it; 'WriteMessage / WriteFrame hold c.mux from the closed check to the last fragment' is read off the code "
-        "(a mutant that drops the lock between fragments is caught by the harness, not by the proof)",
+        EXTRACT_TB, NATINT_TB,
+        "the write-side model (coq/wsconc/SendQueue.v) is tied to nbhttp/websocket/conn.go at the granularity of whole calls: the correspondence part replays "
+        "schedules of WriteMessage calls / returns of the held socket write (ok or error) / CloseAndClean on a real websocket.Conn and the model in lock step "
+        "(call results incl. closed and queue-full, identity and moment of every frame handed to the socket, final wire, close callback). The finer interleaving "
+        "the theorems quantify over - another goroutine between two writeFrame calls of one WriteMessage - is excluded in the code by c.mux being held from the "
+        "closed check to the last fragment: read off the code; a mutant that drops the lock between fragments is caught by the end-to-end oracle, not by the proof. "
+        "A drainer that has written its last frame exits asynchronously: before a bounded-queue length check the harness lets it settle and re-runs a disagreeing "
+        "schedule with long settling times before reporting it",
         "the callback-side instantiation (coq/wsconc/Callbacks.v: upgrade job = job 0 containing the open handler, i-th message callback = job i+2 dispatched "
         "in wire order by the single reader through Execute, close = MustExecute after the closed flag) is stated explicitly and justified by inspection of "
         "upgrader.go / conn.go Parse / engine.go OnClose; the serializer itself is the model of property C05 (coq/sched), tied to conn.go by C05's own harness",
@@ -29,42 +36,47 @@ def c14(c):
         "a bounded send queue (BlockingModSendQueueMaxSize > 0) can refuse a fragment in the middle of a message (result RFull in the model: the accepted prefix stays "
         "contiguous on the wire, but the peer then sees an unfinished message); the harness runs with the default, unbounded queue",
     ]
-    args = ["-n", n(c, 3, 30)]
+    args = ["-n", n(c, 4, 30), "-qn", n(c, 600, 20000)]
     if c.tier == "thorough":
         args.append("-full")
-    c.harness("wsconc", args, overlay=False, timeout=3000)
+    c.harness("wsconc", args, overlay=False, model=MODEL, timeout=3000)
     c.finish()
 
 
 CHECKS = {"C14": c14}
-MODELS = []
+MODELS = [MODEL]
 HARNESSES = [("wsconc", False)]
 
 MANIFEST = {
     "C14": dict(
         technique="Coq proof (invariant of the websocket write side as an LTS with the explicit connection mutex, both write modes, all schedules; callback order as an "
-                  "explicit instance of the C05 serializer theorems, with a serial start/end trace) + implementation-only oracle on real servers in every upgrade path x "
-                  "epoll mode x write mode with raw RFC 6455 clients",
+                  "explicit instance of the C05 serializer theorems, with a serial start/end trace) + the real websocket.Conn over a held socket in lock step with the "
+                  "extracted write-side model + implementation-only oracle on real servers in every upgrade path x epoll mode x write mode with raw RFC 6455 clients",
         text="Theorems in coq/wsconc/C14.v. Write side (SendQueue.v: one action per writeFrame of the call that holds c.mux, the drainer's socket write outside the mutex, the "
              "drainer's critical section and CloseAndClean under it; Direct = Conn.Write under the mutex, Queued = BlockingModAsyncWrite's send queue with the head-starts-drainer "
              "hand-over; every queue bound, every answer of Conn.Write, every action sequence): c14_whole - each call's accepted frames are a prefix of its frames (all of them when it "
              "returned nil, none when refused as closed), what was handed to the socket is a prefix of the per-call accepted sequences concatenated in lock order, and without a socket "
              "error the wire is that prefix and the rest is exactly: frame in the drainer's hand, queued frames, frames freed by CloseAndClean - so no frame of another call can sit "
              "inside a message; c14_no_loss_no_dup - open, no socket error, no drainer alive: wire = accepted sequence, and the drainer's own steps always reach that state; "
+             "c14_whole_messages - if moreover every call returned nil, the wire is the concatenation in lock order of the calls' whole frame sequences; "
              "c14_single_drainer - never a second drainer, none in direct mode, alive iff the queue is non-empty; c14_closed - a write after CloseAndClean is refused as a whole. "
              "Callback side (Callbacks.v): c14_order - for every websocket schedule (upgrade job, messages dispatched in wire order through Execute, closed flag, one MustExecute of "
              "the close job, later messages refused) compiled to the serializer LTS of coq/sched, every executor and interleaving: started jobs are a prefix without repetition of "
              "open; message 0..m-1; close, the start/end trace is serial (every job has ended before the next starts: open completes before the first message callback, message "
              "callbacks never overlap, close starts after the last one ended), and when the drainer has returned exactly that list has run - by c05_fifo_once, c05_mutex, c05_all_run. "
-             "Every run: real nbhttp engines (IOModNonBlocking, IOModBlocking, IOModMixed) and net/http servers with the real Upgrader in the paths poller-driven, blocking with the "
+             "Every run, correspondence part: websocket.NewServerConn over a net.Conn whose Write the harness holds, direct and queued mode, queue bound 0 or 2-8, generated "
+             "schedules of WriteMessage (1-4 fragments) / socket write returns (ok, error) / CloseAndClean replayed on the extracted model: call results, every frame handed "
+             "to the socket and when, final wire, close callback must agree. End-to-end part: real nbhttp engines (IOModNonBlocking, IOModBlocking, IOModMixed) and net/http servers with the real Upgrader in the paths poller-driven, blocking with the "
              "engine's parser loop, blocking with HandleRead, transferred to the poller (from a blocking engine and from net/http), epoll LT / ET / ET+ONESHOT, direct and queued writes, "
              "MaxWebsocketFramePayloadSize 64..4096; per connection up to 10 goroutines x up to 80 messages of up to 8 fragments through WriteMessage / WriteFrame, echoes and pongs "
              "written from callbacks, client messages in random fragments and TCP segments, slow handlers; endings: close frame, abrupt disconnect (idle / during a handler / during the "
              "writes), Close from another goroutine, Engine.Stop (idle / during a handler). Oracles: every message arrives as one uninterrupted frame sequence, once per writer and "
              "sequence number, in per-writer order, none lost before the end marker; open completed before the first message callback, callbacks one at a time in wire order, close "
              "exactly once and after the last message callback.",
-        note="Partial: no differential run against the write-side model (implementation-only oracle). Findings on the unchanged tree, all on connections TRANSFERRED to the poller: "
+        note="Partial: the differential run is at the granularity of whole write calls (the per-fragment interleaving is excluded by the mutex, by inspection); the callback-side "
+             "instantiation is by inspection + end-to-end oracle. Findings on the unchanged tree, all on connections TRANSFERRED to the poller: "
              "message callbacks (and even the close callback) run before / while the open handler runs; under ET+ONESHOT the close callback runs while a message callback is still "
-             "running and a message callback can start after it (signatures *-transferred).",
+             "running and a message callback can start after it (signatures *-transferred); with a bounded send queue (not the default) a WriteMessage refused half-way leaves "
+             "an unfinished message on the wire (partial-message-queue-full).",
         design="4/C14, 4/C05, Appendix D, F"),
 }
